@@ -22,7 +22,7 @@ CONFIG = {
         "assumptions": ["'every process start' is sampled by K fresh processes (3 quick / 8 thorough)",
                         "'every repetition count' is 6 in-process repetitions (20 on replay)"],
         "quick": {"checks": 5000, "shards": 8, "min_nontrivial": 5000, "post": {"run": "^TestC02Corpus$", "procs": 3}},
-        "thorough": {"checks": 60000, "shards": 14, "min_nontrivial": 50000, "timeout": 3000,
+        "thorough": {"checks": 60000, "shards": 14, "min_nontrivial": 50000, "timeout": 3000, "server": True,
                      "post": {"run": "^TestC02Corpus$", "procs": 8}},
         "mandatory_labels": ["C02:rejected", "C02:accepted", "C02:fresh-process-cases"],
     },
